@@ -5,6 +5,7 @@ mod cmd_set;
 mod cmd_enrich;
 mod cmd_binary;
 mod cmd_jax;
+mod cmd_jaxrec;
 mod cmd_lookup;
 mod cmd_record;
 mod cmd_compare;
@@ -46,6 +47,7 @@ fn main() {
         "replay-lookup" => cmd_lookup::run(&args),
         "record" => cmd_record::run(&args),
         "replay-compare" => cmd_compare::run(&args),
+        "record-jax" => cmd_jaxrec::run(&args),
         "replay-linkage" => cmd_linkage::run(&args),
         "record-linkage" => cmd_linkage::record(&args),
         "replay-setmeta" => cmd_setmeta::run(&args),
@@ -85,6 +87,7 @@ fn main() {
                 "replay-order" => cmd_order::replay_one(&v),
                 "replay-sub" => cmd_sub::replay_one(&v),
                 "replay-compare" => cmd_compare::replay_one(&v),
+                "record-jax" => cmd_jaxrec::replay_one(&v),
                 "replay-linkage" => cmd_linkage::replay_one(&v),
                 "replay-setmeta" => cmd_setmeta::replay_one(&v),
                 "replay-setmachine" => cmd_setmachine::replay_one(&v),
